@@ -437,7 +437,11 @@ def extract_callsig(incdir):
     casts_sig = re.findall(r"function_pointer_cast<\s*([\w:]+)\s*>\s*\(", signal_h)
     uses_reinterpret = len(re.findall(r"reinterpret_cast", slot_h + signal_h))
     cstyle = len(re.findall(r"\(\s*call_type\s*\)", slot_h + signal_h))
-    return {"call_type": norm(m_ct.group(1)) if m_ct else "Unrecognised",
+    ct = norm(m_ct.group(1)) if m_ct else "Unrecognised"
+    m_alias = re.search(r"using\s+rep_type\s*=\s*(?:sigc::)?(?:internal::)?(\w+)\s*;", slot_h)
+    if m_alias:
+        ct = re.sub(r"\brep_type\b", m_alias.group(1), ct)
+    return {"call_type": ct,
             "call_it": (norm(m_ci.group(1)) + " (*)(" + norm(re.sub(r"\s*\w+\s*(,|$)", r"\1", norm(m_ci.group(2)))) + ")") if m_ci else "Unrecognised",
             "call_it_params": norm(m_ci.group(2)) if m_ci else "Unrecognised",
             "casts_slot": casts_slot, "casts_signal": casts_sig, "reinterpret_casts": uses_reinterpret, "cstyle_casts": cstyle}
